@@ -190,10 +190,10 @@ SHAPES: List[Tuple[str, Shape]] = [
 ]
 
 
-def build_zoo_builder(seed: int, name: Optional[str] = None, n_shapes: Optional[int] = None
-                      ) -> Tuple[LayerBuilder, Dict[str, Any], List[str]]:
+def build_zoo_builder(seed: int, name: Optional[str] = None, n_shapes: Optional[int] = None,
+                      container: Optional[str] = None) -> Tuple[LayerBuilder, Dict[str, Any], List[str]]:
     r = random.Random(seed * 7919 + 13)
-    b = LayerBuilder(name or f"zoo{seed}", "ecu")
+    b = LayerBuilder(name or f"zoo{seed}", "ecu", container)
     truth: Dict[str, Any] = {}
     k = n_shapes or r.randint(4, 8)
     # every shape appears in some layer: rotate deterministically, then add random ones
